@@ -383,7 +383,13 @@ fn mode_b(rng: &mut Rng, arch: &Arch) -> Built {
                 vec![bin(sp.clone(), "INT_SUB", sp.clone(), cst(ptr, ptr)), st(arch, sp.clone(), bp.clone())],
                 vec![copy(bp.clone(), sp.clone())],
             ];
-            let alloc = vec![bin(sp.clone(), "INT_SUB", sp.clone(), cst(frame, ptr))];
+            // (`sub sp, N`, or the addition of the two's complement)
+            let alloc = if rng.chance(1, 3) {
+                feats.insert("sp_add_negative".into());
+                vec![bin(sp.clone(), "INT_ADD", sp.clone(), cst(frame.wrapping_neg(), ptr))]
+            } else {
+                vec![bin(sp.clone(), "INT_SUB", sp.clone(), cst(frame, ptr))]
+            };
             if rng.chance(1, 2) {
                 feats.insert("sp_mask".into());
                 let k = *rng.pick(&[4u64, 4, 4, 5, 3, 8, 12]);
